@@ -2,9 +2,11 @@ package vc
 
 import (
 	"fmt"
+	"go/ast"
 	"go/token"
 	"go/types"
 	"sort"
+	"strconv"
 	"strings"
 
 	"gvc/internal/smt"
@@ -52,6 +54,31 @@ func (env *SpecEnv) lookup(name string) (Val, bool, error) {
 		return v, true, nil
 	}
 	e := env.E
+	// $out<k> names the local variable that the function's closing return statement
+	// hands out as result k, whatever the code calls it
+	if strings.HasPrefix(name, "$out") && !env.Callee && e.cur != nil && e.cur.Decl != nil && e.cur.Decl.Body != nil {
+		k := 0
+		if len(name) > 4 {
+			n, err := strconv.Atoi(name[4:])
+			if err != nil {
+				return Val{}, false, nil
+			}
+			k = n
+		}
+		if l := e.cur.Decl.Body.List; len(l) > 0 {
+			if rs, ok := l[len(l)-1].(*ast.ReturnStmt); ok && k < len(rs.Results) {
+				if id, ok := ast.Unparen(rs.Results[k]).(*ast.Ident); ok {
+					if o, ok := e.cur.Info.Uses[id].(*types.Var); ok {
+						if t, ok := env.St.vars[o]; ok {
+							return Val{t, o.Type()}, true, nil
+						}
+						return Val{}, false, fmt.Errorf("%s: variable %s has no value here", name, o.Name())
+					}
+				}
+			}
+		}
+		return Val{}, false, fmt.Errorf("%s: the function does not end in a return statement whose result %d is a local variable", name, k)
+	}
 	if !env.Callee && e.cur != nil && e.cur.Pkg != nil {
 		scope := e.cur.Pkg.Scope().Innermost(env.Pos)
 		if scope == nil {
